@@ -12,9 +12,9 @@ class GeometryError(Exception):
     """the crystal's own data are not integer where they must be (outside the separated domain)"""
 
 
-def iround(x, what):
+def iround(x, what, tol=TOL):
     r = np.round(x)
-    if np.abs(np.asarray(x) - r).max(initial=0.) > TOL:
+    if np.abs(np.asarray(x) - r).max(initial=0.) > tol:
         raise GeometryError("%s not integer: %r" % (what, np.asarray(x).tolist()))
     return tuple(int(v) for v in r)
 
@@ -30,7 +30,7 @@ def latt_jumps(crys, chem, jn):
     u = crys.basis[chem]
     for t, jl in enumerate(jn):
         for (i, j), dx in jl:
-            R = iround(np.dot(crys.invlatt, dx) - u[j] + u[i], "jump cell vector")
+            R = iround(np.dot(crys.invlatt, dx) - u[j] + u[i], "jump cell vector", max(TOL, crys.threshold))
             out.append((int(i), int(j), pad3(R), t))
     return out
 
@@ -54,7 +54,8 @@ def ops_of(crys, chem):
         perm = tuple(int(x) for x in g.indexmap[chem])
         sh = []
         for i in range(len(u)):
-            sh.append(pad3(iround(np.dot(S, u[i]) + g.trans - u[perm[i]], "site shift")))
+            # positions may carry noise up to the crystal's own symmetry threshold (relaxed coordinates)
+            sh.append(pad3(iround(np.dot(S, u[i]) + g.trans - u[perm[i]], "site shift", max(TOL, crys.threshold))))
         out.append((embed3(S), perm, tuple(sh)))
     return out
 
@@ -334,3 +335,41 @@ def lowsym_network(crys, chem, rng, maxjumps=40):
         if sum(len(t) for t in jn) > maxjumps: break
         if len(jn) >= 2: best = (sh[k] + 1e-4, jn)
     return best
+
+
+# ---- crystals with numerically noisy positions, analysed with a loosened symmetry threshold -------------------------------
+def noisy_crystal(name, rng, noise=2e-5, threshold=1e-3):
+    """-> (label, crystal, chem, ideal crystal) : the named crystal with every position displaced by up to `noise` (cell
+    coordinates) and Crystal(..., threshold=threshold, noreduce=True); None unless the space group is still complete"""
+    from onsager import crystal
+    from . import gen
+    ideal, chem = gen.named(name)
+    basis = [[u + noise * np.array([rng.uniform(-1, 1) for _ in range(ideal.dim)]) for u in ul] for ul in ideal.basis]
+    try:
+        crys = crystal.Crystal(ideal.lattice, basis, threshold=threshold, noreduce=True)
+    except Exception:
+        return None
+    if len(crys.G) != len(ideal.G) or [len(b) for b in crys.basis] != [len(b) for b in ideal.basis]: return None
+    return "noisy-" + name, crys, chem, ideal
+
+
+def collinear_network(crys, chem):
+    """user-selected network with a jump v and the collinear jump 2v (classes of crys.jumpnetwork out to twice the shortest
+    jump): the vacancy can hop from a to -a across a fixed solute.  -> (description, network) or None"""
+    from . import gen
+    sh = gen.shells(crys, chem)
+    wide = crys.jumpnetwork(chem, 2 * sh[0] + 1e-4)
+    (i0, j0), dx0 = wide[0][0]
+    keep = [0]
+    for t, cl in enumerate(wide):
+        if t and any(i == j and i == i0 and np.allclose(dx, 2 * dx0, atol=1e-8) for (i, j), dx in cl): keep.append(t)
+    if i0 != j0 or len(keep) < 2: return None
+    return "classes %s of cutoff 2*d1 (v and 2v)" % keep, [wide[t] for t in keep]
+
+
+def tioh():
+    """HCP Ti + octahedral O + tetrahedral H; moving species = chemistry 2 (last): flat atom index != sublattice index"""
+    from onsager import crystal
+    hcp = crystal.Crystal.HCP(1., chemistry='Ti')
+    TiO = hcp.addbasis(hcp.Wyckoffpos(np.array([0., 0., 0.5])), chemistry=['O'])
+    return TiO.addbasis(TiO.Wyckoffpos(np.array([1. / 3., 2. / 3., 0.625])), chemistry=['H']), 2
